@@ -132,6 +132,15 @@ def store_view(p, store):
     return exp
 
 
+def stale_value(view, pid):
+    """Vendor encoding of what the getters show right after the object processed a report with this view."""
+    import types
+    try:
+        return expected_value(types.SimpleNamespace(**view), pid)
+    except (KeyError, AttributeError):
+        return None
+
+
 def run(plan):
     s = Session(plan, max_iterations=8000)
     w = s.world
@@ -274,7 +283,7 @@ def run(plan):
                         return
                     for pid, v in got:
                         if bytes(v) != want[pid] and stale is not None and w.loop.time() >= stale["at"] \
-                                and pid in stale["props"] and bytes(v) == stale["props"][pid]:
+                                and bytes(v) == stale_value(stale["view"], pid):
                             # the late duplicate of an older report was waiting in the connection and was processed
                             # by this apply's state exchange before the write was built: the object showed the
                             # reported value again at that moment, and that is the value it sent (correctly encoded)
@@ -320,8 +329,7 @@ def run(plan):
                 if stale is not None and w.loop.time() >= stale["at"]:
                     stale = None
                 if rop.get("net"):
-                    stale = {"at": w.loop.time() + op["dup_props_late"],
-                             "props": {pid: bytes(M.prop_store_value_for_read(pid, dev.props)) for pid in supported_ids(p)}}
+                    stale = {"at": w.loop.time() + op["dup_props_late"], "view": store_view(p, dev.props)}
                 did["refresh"] += 1
                 exp = store_view(p, dev.props)
                 for attr, v in exp.items():
